@@ -63,7 +63,7 @@ type want struct {
 	indSteps  int64 // path extensions the induced counters needed (a measure of the library's cost as well)
 }
 
-const oracleSteps = 3000000
+const oracleSteps = 400000
 
 func oracle(g *rg.G) *want {
 	n := g.N
@@ -356,6 +356,28 @@ func (t *gcase) wrong(api, witness string, observed, expected string, more ...in
 	t.c.Violation(key, t.detail(more...), observed, expected)
 }
 
+// bounds lists the maxLength arguments tried on the induced counters: every
+// value in -1..n+1 when the counters are cheap on this graph, a few when they
+// are expensive, none (nil) when the oracle gave up or the library would need
+// minutes (its cost per extended path is 3..30 microseconds).
+func (t *gcase) bounds() []int {
+	w, n := t.w, t.h.N
+	if !t.expCap || w.indCycles == nil || w.indPaths == nil || w.indSteps > 60000 {
+		return nil
+	}
+	if w.indSteps > 4000 {
+		return []int{-1, 4, n / 2}
+	}
+	if w.indSteps > 400 && n > 8 {
+		return []int{-1, 0, 2, 3, n / 2, n - 1, n + 1}
+	}
+	r := []int{}
+	for ml := -1; ml <= n+1; ml++ {
+		r = append(r, ml)
+	}
+	return r
+}
+
 func canonSets(a [][]int) ([][]int, bool) {
 	sorted := true
 	r := make([][]int, len(a))
@@ -531,10 +553,10 @@ func (t *gcase) run() {
 		}
 	}
 	// NumberOfInducedCycles / NumberOfInducedPaths for every bound
-	if !t.expCap || w.indCycles == nil || w.indPaths == nil {
+	if mls := t.bounds(); mls == nil {
 		c.Obs("skipped:induced_counters_over_budget", 1)
 	} else {
-		for ml := -1; ml <= n+1; ml++ {
+		for _, ml := range mls {
 			bound := ml
 			if ml < 0 || ml > n {
 				bound = n
@@ -554,12 +576,12 @@ func (t *gcase) run() {
 			c.Obs(fmt.Sprintf("convention:NumberOfInducedCycles_len=n%+d", len(got)-n), 1)
 			if len(got) > bound+1 {
 				c.Obs("entries_beyond_bound_not_judged", len(got)-bound-1)
-				if !eqInts(got[bound+1:], w.indCycles[bound+1:len(got)]) {
+				if len(got) <= n+1 && !eqInts(got[bound+1:], w.indCycles[bound+1:len(got)]) {
 					c.Obs("observed:entries_beyond_bound_differ_from_full_count", 1)
 				}
 			}
 		}
-		for ml := -1; ml <= n+1; ml++ {
+		for _, ml := range mls {
 			bound := ml
 			if ml < 0 || ml > n-1 {
 				bound = n - 1
@@ -579,7 +601,7 @@ func (t *gcase) run() {
 			c.Obs(fmt.Sprintf("convention:NumberOfInducedPaths_len=n%+d", len(got)-n), 1)
 			if len(got) > bound+1 {
 				c.Obs("entries_beyond_bound_not_judged", len(got)-bound-1)
-				if !eqInts(got[bound+1:], w.indPaths[bound+1:len(got)]) {
+				if len(got) <= n+1 && !eqInts(got[bound+1:], w.indPaths[bound+1:len(got)]) {
 					c.Obs("observed:entries_beyond_bound_differ_from_full_count", 1)
 				}
 			}
@@ -780,11 +802,11 @@ func run(c *engine.Ctx) {
 					runBase(c, g, p)
 				}
 				if from == 0 {
+					c.Obs(fmt.Sprintf("exhaustive:all %d isomorphism classes n=%d x 4 labellings x 4 representations", total, n), 1)
 					c.Sample("classes", map[string]interface{}{"n": n, "classes": total, "first": cl[0].G6(), "last": cl[total-1].G6(), "relabellings_per_class": 4, "representations": allReps})
 				}
 			})
 		}
-		c.Obs(fmt.Sprintf("exhaustive:all %d isomorphism classes n=%d x 4 labellings x 4 representations", total, n), 1)
 	}
 
 	// 2. every labelled graph on n <= 5 (6) vertices: state leaking between BFS roots or DFS branches depends on the labelling
@@ -815,9 +837,11 @@ func run(c *engine.Ctx) {
 					runBase(c, g, p)
 				})
 				c.Obs(fmt.Sprintf("labelled_graphs_n=%d", n), cnt)
+				if s == 0 {
+					c.Obs(fmt.Sprintf("exhaustive:all 2^%d labelled graphs n=%d x 4 representations", e, n), 1)
+				}
 			})
 		}
-		c.Obs(fmt.Sprintf("exhaustive:all 2^%d labelled graphs n=%d x 4 representations", e, n), 1)
 	}
 
 	// 3. named families with many short cycles / known structure
